@@ -47,6 +47,7 @@ def run(ctx: Ctx, rep: Report) -> None:
     rep.rule("C05-R5", "API arguments reach the PDU fields (decided by C07-R1, C02-R3, C04-R1)", floor=1)
     rep.rule("C05-R6", "msgFlags state the credentials' security level and mark confirmed-class PDUs reportable (shared with C10-R1)", floor=10)
     rep.rule("C05-R8", "the v3 security parameters emitted carry the discovered authoritative engine id, boots, time and the user name (shared with C10-R2)", floor=5)
+    rep.rule("C05-R9", "v3 requests: encrypt, then splice the digest into otherwise unchanged security parameters; with privacy the scoped PDU travels as the plug-in's ciphertext under the agent-localised key (shared with C10-R3, C11-R1/R2/R4)", floor=8)
     rep.rule("C05-R7", "the version spoken is that of the current credentials: a change of credential family installs the matching message-processing model (shared with C18-R4)", floor=4)
     rep.assumptions += [
         "x690 encodes the primitive types (INTEGER, OCTET STRING, OID, NULL), lengths and SEQUENCE framing correctly over their full ranges (numeric; not analysed here)",
@@ -278,5 +279,7 @@ def run(ctx: Ctx, rep: Report) -> None:
     sub = ctx.sub_run("c10", rep)
     rep.adopt_rules(sub, "C05-R6", ["C10-R1"])
     rep.adopt_rules(sub, "C05-R8", ["C10-R2"])
+    rep.adopt_rules(sub, "C05-R9", ["C10-R3"])
+    rep.adopt_rules(ctx.sub_run("c11", rep), "C05-R9", ["C11-R1", "C11-R2", "C11-R4"])
     sub = ctx.sub_run("c18", rep)
     rep.adopt_rules(sub, "C05-R7", ["C18-R4"])
